@@ -152,6 +152,15 @@ def gen_cases(ctx):
         p = g.package(cmd, n_elig=2)
         add(p, ["-type=%s,*" % p["elig_hint"][0]], ["named+star"])
 
+    # corpus first: hand-picked edge cases and the witnesses of the finding regions (one S-expression per file)
+    cdir = os.path.join(core.VERIF, "corpus", "C16")
+    if os.path.isdir(cdir):
+        for fn in sorted(os.listdir(cdir)):
+            if fn.endswith(".sexp"):
+                sx = sexp.parse(open(os.path.join(cdir, fn)).read().strip())
+                pkg, argv = cligen.pkg_from_sexp(sx)
+                cases.append(make_case("k%d" % k[0], pkg, argv, ["corpus"]))
+                k[0] += 1
     for cmd in cligen.CMDS:
         shaped(cmd)
     nshaped = len(cases)
